@@ -66,10 +66,10 @@ def eval_closed(E, model, t, timeout_ms=5000):
     evaluated in the model (cheap), substituted, and the closed term is normalised by the
     rewriter, which unfolds recursive definitions on concrete arguments (model.eval on terms with
     recursive functions overflows in z3 5.1)."""
-    from .deffun import to_rec
+    from .deffun import eval_closed_term
     subs = [(c, model.eval(c, model_completion=True)) for c in _free_consts(t).values()]
     closed = z3.substitute(t, *subs) if subs else t
-    return z3.simplify(to_rec(closed))
+    return eval_closed_term(closed)
 
 
 def judge(E, name, clause, hyps, goal, source, timeout_ms, witness_terms=None, extra=None, path_idx=None,
